@@ -47,6 +47,18 @@ theorem grouped (hl : 1 ≤ l) (hm : 1 ≤ m) (hn : 1 ≤ n)
     T.atoms = S.atoms.flatMap fun a => (ijkList l m n).map (image l m n a) := by
   rw [res hl hm hn h]; rfl
 
+/-- the same with explicit labels: the result is the list of images labelled by (index of the
+parent in the input, box translation); the labels are pairwise different (no image twice) and each
+atom is the image of the parent with that index -/
+theorem labelled_result (hl : 1 ≤ l) (hm : 1 ≤ m) (hn : 1 ≤ n)
+    (h : supercell S [(l : Int), (m : Int), (n : Int)] = .ok T) :
+    T.atoms = (labelled S.atoms l m n).map (·.2.2) ∧
+    ((labelled S.atoms l m n).map fun x => (x.1, x.2.1)).Nodup ∧
+    ∀ x ∈ labelled S.atoms l m n, ∃ a, S.atoms[x.1]? = some a ∧ x.2.1 ∈ ijkList l m n ∧
+      x.2.2 = image l m n a x.2.1 := by
+  rw [res hl hm hn h]
+  exact ⟨(labelled_atoms S.atoms l m n).symm, labelled_keys_nodup S.atoms l m n, labelled_mem S.atoms l m n⟩
+
 /-- the index box is exactly `{0..l-1}×{0..m-1}×{0..n-1}`, each triple once -/
 theorem box_exact (l m n : Nat) :
     (ijkList l m n).Nodup ∧ (ijkList l m n).length = l * m * n ∧
@@ -158,6 +170,10 @@ theorem rejects (S : Stru α β) (mno : List Int) :
     ((∃ e, supercell S mno = .error e) ↔ (mno.length ≠ 3 ∨ ∃ x ∈ mno, x < 1)) ∧
     (∀ e, supercell S mno = .error e → e = .ValueError) :=
   ⟨supercell_error S mno, supercell_error_kind S mno⟩
+
+/-- the `(1,1,1)` shortcut returns the plain copy `Structure(S)` -/
+theorem shortcut_is_copy (S : Stru α β) : supercell S [1, 1, 1] = .ok S := by
+  simp [supercell_three]
 
 theorem accepted (S : Stru α β) (mno : List Int) (T : Stru α β) (h : supercell S mno = .ok T) :
     ∃ l m n : Nat, 1 ≤ l ∧ 1 ≤ m ∧ 1 ≤ n ∧ mno = [(l : Int), (m : Int), (n : Int)] :=
